@@ -139,6 +139,7 @@ async def consumer(ci, child, prog, st, sim):
         else:
             if prog.then == "close":
                 st.in_next[ci] = True  # a cancellation from here on passes through the child's aclose
+                st.closing[ci] = True
                 await child.aclose()
                 st.done[ci] = True
                 st.finished[ci] = "closed"
@@ -149,6 +150,7 @@ async def consumer(ci, child, prog, st, sim):
         st.finished[ci] = "cancelled"
         if st.cancel_closes:
             try:
+                st.closing[ci] = True
                 await child.aclose()
             finally:
                 st.done[ci] = True
@@ -204,6 +206,7 @@ def execute(st_, ctx):
     st.errors = []
     st.retention = None
     st.in_next = [False] * sc.n
+    st.closing = [False] * sc.n
     st.cancel_closes = sc.cancel_closes
     st.probes = out.probes
     tasks = []
@@ -212,6 +215,18 @@ def execute(st_, ctx):
     if sc.cancel is not None:
         c_at = 1 + st_.faults.draw(10)
         sim.cancel_plan[tasks[sc.cancel].id] = c_at
+    def closing_watch(sim_):
+        # while the source's own aclose is in progress (it suspends), the child whose closing led there has given up its
+        # backlog already: a cancellation arriving now must not leave those items behind
+        if src.n_aclose > 0 and not src.closed and sc.src.flavour != "agen":
+            closing = [ci for ci in range(sc.n) if st.closing[ci] and not st.done[ci]]
+            if closing:
+                saved = list(st.done)
+                for ci in closing:
+                    st.done[ci] = True
+                check_retention(st)
+                st.done = saved
+    sim.step_hooks.append(closing_watch)
     if lock is not None:
         def watch(sim_, lock=lock, src=src, seen=[0]):
             # probe only: an item was delivered while a sibling waited for the lock
